@@ -165,6 +165,8 @@ class TagAnalysis(Analysis):
             t = self.ev(st.iter, s)
         elif value is None or isinstance(value, (ast.FunctionDef, ast.ClassDef, ast.AsyncFunctionDef)):
             t = self.default
+            if self.observe is not None and value is not None:
+                self.observe(value, None, self.copy(s))        # the state a nested definition closes over
         else:
             t = None
             if isinstance(target, (ast.Tuple, ast.List)) and isinstance(value, (ast.Tuple, ast.List)) \
